@@ -579,7 +579,7 @@ Lemma h_liquidate_effect w liqor liqee ab lb amount w' :
     hw_now w' = hw_now w /\ hw_pf w' = hw_pf w /\ hw_risk_admin_signs w' = hw_risk_admin_signs w /\
     liquidate_facts w liqor liqee ab lb amount ha hl ha' hl' ee er ee3 er3.
 Proof.
-  intros H. unfold h_liquidate in H.
+  intros H. unfold h_liquidate, h_liquidate_gen in H.
   apply bind_ok in H as (ha & Hha & H). apply bind_ok in H as (hl & Hhl & H).
   apply bind_ok in H as (u3 & _ & H).
   apply bind_ok in H as (u1 & Hamt & H). apply check_ok in Hamt.
